@@ -67,14 +67,14 @@ Theorem prop_code_spec e fs levels ws fin :
 Proof.
   intros Hv. unfold prop_code, C12_batch.
   rewrite <- (prefixes_validb_spec e ws fs Hv), <- final_okb_spec, <- same_onb_spec,
-          <- no_redundantb_spec, <- legalb_spec.
+          <- no_redundantb_spec.
   destruct (prefixes_validb e fs ws), (final_okb fin (concat levels)),
            (same_onb (files_of e) fin (apply_writes e ws fs)),
-           (no_redundantb e fs (concat levels) ws), (legalb e ws); cbn; intuition congruence.
+           (no_redundantb e fs (concat levels) ws); cbn; intuition congruence.
 Qed.
 
-(* clauses 1, 2, 4 (crash points, final state, frame) hold: the code is 0, 3 or 5 *)
-Definition soft (c : Z) : bool := (c =? 0) || (c =? 3) || (c =? 5).
+(* clauses 1, 2, 4 (crash points, final state, frame) hold: the code is 0 or 3 *)
+Definition soft (c : Z) : bool := (c =? 0) || (c =? 3).
 
 Lemma prop_code_soft e fs levels ws fin :
   validb e fs = true -> every_prefix_valid e fs ws -> final_ok fin (concat levels) ->
@@ -83,8 +83,7 @@ Proof.
   intros Hv H1 H2 H3. unfold prop_code.
   apply (prefixes_validb_spec e ws fs Hv) in H1. apply final_okb_spec in H2. apply same_onb_spec in H3.
   rewrite H1, H2, H3. cbn [negb].
-  destruct (no_redundantb e fs (concat levels) ws); [|reflexivity].
-  destruct (legalb e ws); reflexivity.
+  destruct (no_redundantb e fs (concat levels) ws); reflexivity.
 Qed.
 
 (* ---------- one batch of the model ---------- *)
@@ -120,9 +119,8 @@ Theorem leveled_batch_holds e st levels :
 Proof.
   intros Hh Hc Hq res. destruct (leveled_hard e st levels Hh Hc) as (H1 & H2 & H3).
   apply hyps_ok_hyps in Hh. unfold C12_batch.
-  split; [exact H1|]. split; [exact H2|]. split; [exact H3|]. split.
-  - exact (leveled_no_redundant e st levels Hh Hc Hq).
-  - exact (leveled_legal e st levels Hh Hc Hq).
+  split; [exact H1|]. split; [exact H2|]. split; [exact H3|].
+  exact (leveled_no_redundant e st levels Hh Hc Hq).
 Qed.
 
 (* ---------- one applyCPUSetWithNonePolicy call of the model ---------- *)
@@ -254,7 +252,8 @@ Proof.
   intros Hn. apply no_redundantb_spec in Hn. vm_compute in Hn. discriminate.
 Qed.
 
-(* cgroup v2, one directory, cpu.max = "0 100000", target -1: the literal "-1" is written *)
+(* an observation about the model, not a clause of the property: cgroup v2, one directory,
+   cpu.max = "0 100000", target -1: the literal "-1" is written by the merge pass *)
 Lemma refuted_legal_cfs_v2 :
   exists e st levels, hyps_ok e (sfs st) levels = true /\ coherent_st st
     /\ ~ legal e (snd (leveled_update e st levels)).
